@@ -111,6 +111,9 @@ class Scratch:
         return self.path
 
     def __exit__(self, *exc):
+        if os.environ.get("VERIF_KEEP_SCRATCH"):   # debugging aid
+            log(f"[scratch kept] {self.path}")
+            return
         shutil.rmtree(self.path, ignore_errors=True)
 
 
